@@ -396,6 +396,8 @@ func c24Extra(r *Run) error {
 	as := modInternal + "server/oauth/authserver"
 	r.census("C24/password-check-census", modInternal+"server/auth.ValidatePassword", 0, "", "(*"+rt+".Session).Authenticate", as+".validatePassword")
 	r.census("C24/oauth-password-check-census", as+".validatePassword", 0, "", as+".AuthorizePostHandler")
+	r.boundedGoTest("C24-histories", "histories of login attempts with Basic credentials through the real Session.Authenticate agree step by step with the property read as a model (per lower-cased account a count of consecutive failures; locked at the limit: every attempt refused and nothing changes; a right password clears the count; accounts independent; limit 0 never locks); one timed history: the lock ends with the lockout period",
+		"quick: 4 operations (right(a), wrong(a), wrong(A), wrong(b)), every history of length 3 at limit 2 and of length 2 at limits 0 and 1; thorough: 5 operations (+ right(b)), length 3 at limits 0 and 1, length 4 at limit 2, length 3 at limit 3; lockout 10 min; one history with lockout 1.5 s")
 	return nil
 }
 
